@@ -412,3 +412,60 @@ func VerifC19_Reuse() {
 	vrt.Reach("reused")
 	p.Recycle()
 }
+
+func init() { vrt.Register("VerifC19_SkipMapShapes", VerifC19_SkipMapShapes) }
+
+// verifPutShape appends a value of shape sh with symbolic content and returns its Thrift type:
+// 0 i32, 1 string (0..2 bytes), 2 list<i16> (0..2 elements), 3 struct{1: byte}, 4 map<byte,byte> (one entry),
+// 5 set<string> (one element), 6 double, 7 bool.
+func verifPutShape(b []byte, sh int) ([]byte, byte) {
+	switch sh {
+	case 0:
+		return vrt.PutBE32(b, int(int32(vrt.U32()))), vrt.TI32
+	case 1:
+		return vrt.PutString(b, vrt.Bytes(vrt.Conc(int(vrt.U8())%3))), vrt.TSTRING
+	case 2:
+		n := vrt.Conc(int(vrt.U8()) % 3)
+		b = vrt.PutListHdr(b, vrt.TI16, n)
+		for i := 0; i < n; i++ {
+			b = vrt.PutBE16(b, int(int16(vrt.U16())))
+		}
+		return b, vrt.TLIST
+	case 3:
+		return append(append(vrt.PutField(b, vrt.TBYTE, 1), vrt.U8()), 0), vrt.TSTRUCT
+	case 4:
+		return append(vrt.PutMapHdr(b, vrt.TBYTE, vrt.TBYTE, 1), vrt.U8(), vrt.U8()), vrt.TMAP
+	case 5:
+		return vrt.PutString(vrt.PutListHdr(b, vrt.TSTRING, 1), vrt.Bytes(1)), vrt.TSET
+	case 6:
+		return vrt.PutBE64(b, int64(vrt.U64())), vrt.TDOUBLE
+	}
+	x := byte(0)
+	if vrt.Bool() {
+		x = 1
+	}
+	return append(b, x), vrt.TBOOL
+}
+
+// VerifC19_SkipMapShapes: skipping a map<K,V> of CNT entries for every pair of key / value shapes (fixed-width,
+// string, list, struct, map, set) advances exactly over the map, whatever follows it.
+func VerifC19_SkipMapShapes() {
+	ks, vs, cnt := vrt.Param("KS"), vrt.Param("VS"), vrt.Param("CNT")
+	var body []byte
+	var kt, vt byte
+	_, kt = verifPutShape(nil, ks)
+	_, vt = verifPutShape(nil, vs)
+	for i := 0; i < cnt; i++ {
+		body, _ = verifPutShape(body, ks)
+		body, _ = verifPutShape(body, vs)
+	}
+	b := append(vrt.PutMapHdr(nil, kt, vt, cnt), body...)
+	n := len(b)
+	b = append(b, vrt.U8(), vrt.U8()) // trailing bytes that do not belong to the map
+	vrt.Assume(vrt.TSkip(b[:n:n], 0, vrt.TMAP, 4) == n)
+	p := &BinaryProtocol{Buf: b}
+	err := p.Skip(MAP, false)
+	vrt.Assert(err == nil, "C19.skip-map-shapes.noerror")
+	vrt.Assert(p.Read == n, "C19.skip-map-shapes.exact")
+	vrt.Reach("done")
+}
